@@ -3,7 +3,7 @@ import itertools, os, random, time
 from common import *
 
 VARIANT = "queue"     # which scheduler variant of the model corresponds to the code in /repo
-C03_THEOREMS = ['SodiumVerif.Sched.dfs_glitch_witness', 'SodiumVerif.Sched.queue_no_glitch_on_d1', 'SodiumVerif.Sched.drain_final', 'SodiumVerif.Sched.sched_glitch_free', 'SodiumVerif.Sched.sched_terminates', 'SodiumVerif.Sched.sched_runs_once', 'SodiumVerif.Sched.sched_runs_iff', 'SodiumVerif.Sched.sched_result_unique', 'SodiumVerif.Sched.transaction_glitch_free', 'SodiumVerif.Sched.transaction_runs_iff', 'SodiumVerif.Sched.transaction_result_unique']
+C03_THEOREMS = ['SodiumVerif.Sched.dfs_glitch_witness', 'SodiumVerif.Sched.queue_no_glitch_on_d1', 'SodiumVerif.Sched.drain_final', 'SodiumVerif.Sched.sched_glitch_free', 'SodiumVerif.Sched.sched_terminates', 'SodiumVerif.Sched.sched_runs_once', 'SodiumVerif.Sched.sched_runs_iff', 'SodiumVerif.Sched.sched_result_unique', 'SodiumVerif.Sched.transaction_glitch_free', 'SodiumVerif.Sched.transaction_runs_iff', 'SodiumVerif.Sched.transaction_result_unique', 'SodiumVerif.Bridge.sched_refines_spec', 'SodiumVerif.Bridge.sched_computes_fireTable']
 
 
 def random_dag_script(rng, max_nodes=12):
